@@ -159,7 +159,7 @@ var phase2Seqs = map[string][]string{
 	"other-action":      {"commit@actB"},
 	"unknown-resource":  {"commit@nosuch", "rollback@nosuch"},
 	"empty-data":        {"commit#empty", "rollback#empty"},
-	"malformed-data":    {"commit#malformed"},
+	"malformed-data":    {"commit#malformed", "rollback#malformed", "commit#truncated", "rollback#text"},
 	"no-context-key":    {"rollback#nokey"},
 }
 
@@ -436,6 +436,14 @@ func evalCase(r *rep.Run, c Case, idx int) {
 				data = nil
 			case "#malformed":
 				data = []byte("{not json")
+			case "#truncated":
+				if len(req.ApplicationData) > 2 {
+					data = req.ApplicationData[:len(req.ApplicationData)/2]
+				} else {
+					data = []byte("{")
+				}
+			case "#text":
+				data = []byte("plain text")
 			case "#nokey":
 				data = []byte(`{"other":1}`)
 			}
@@ -478,9 +486,15 @@ func evalCase(r *rep.Run, c Case, idx int) {
 			}
 			continue
 		}
-		if strings.HasSuffix(step, "#malformed") {
+		if strings.HasSuffix(step, "#malformed") || strings.HasSuffix(step, "#truncated") || strings.HasSuffix(step, "#text") {
 			if success && len(calls) == 0 {
 				fail("malformed-data-success", fmt.Sprintf("step %d: success status %v without running the user method", n, status))
+				return
+			}
+			// undecodable application data cannot yield a context equivalent to the registered one: user code must not be run
+			// with a made-up one
+			if len(calls) > 0 && !jsonEq(calls[0].Ctx, actx) {
+				fail("malformed-data-dispatched", fmt.Sprintf("step %d: the application data %q cannot be decoded, yet the user method ran with the context %v (registered: %v) and status %v was reported", n, data, calls[0].Ctx, actx, status))
 				return
 			}
 			continue
